@@ -192,7 +192,8 @@ ParDecide(S0, n) ==    \* 0: go on, 1: a child result ends the parallel (stop th
 
 OnResume(S0, n) ==
   CASE IsLeaf(n) ->
-         LET S1 == Emit(S0, "resume", n) IN
+         \* the timer is armed afresh: if it was overdue it is merely due again
+         LET S1 == [Emit(S0, "resume", n) EXCEPT !.lrem[n] = IF @ < 0 THEN 0 ELSE @] IN
          IF S1.lph[n] = 1
          THEN LET S2 == [S1 EXCEPT !.lph[n] = 2, !.lrem[n] = prog[n].d] IN
               IF prog[n].d = 0 /\ K(n) # "Sleep" THEN LeafFire(S2, n) ELSE S2
